@@ -163,6 +163,22 @@ func H09Concurrent() {
 			vAssert("race/loser-touches-no-resource", len(kubes[who].writes) == 0)
 		}
 	}
+	// an operation that reported success created a revision, and the highest revision
+	// created by a successful operation is the deployed one once everything has returned
+	best := 0
+	for who := 0; who < 2; who++ {
+		if errs[who] == nil {
+			vAssert("race/success-means-own-revision-created", len(createdBy[who]) > 0)
+			for _, v := range createdBy[who] {
+				if v > best {
+					best = v
+				}
+			}
+		}
+	}
+	if best > 0 {
+		vAssert("race/successful-revision-is-deployed", statusOf(h, best) == release.StatusDeployed)
+	}
 	checkLedger(w, pre, "concurrent")
 	_ = strings.Join
 }
